@@ -10,6 +10,7 @@ import (
 
 	"verifmon/internal/core"
 	"verifmon/internal/gen"
+	"verifmon/internal/obs"
 	"verifmon/internal/ref"
 )
 
@@ -26,7 +27,7 @@ var c20 = core.Register(&core.Prop{
 	Shards: func(tier string) int { return pickTier(tier, 8, 16) },
 	Floors: func(c map[string]int64, tier string) []string {
 		var out []string
-		for _, k := range []string{"histories", "op:setthis", "op:setthis-nil", "op:setvalue", "op:resolve", "op:set", "op:get", "resolve_on_unset_map", "caller_map_comparisons", "locals_survived_evaluations", "locals_dropped_by_setthis"} {
+		for _, k := range []string{"histories", "op:setthis", "op:setthis-nil", "op:setvalue", "op:resolve", "op:set", "op:get", "resolve_on_unset_map", "caller_map_comparisons", "locals_survived_evaluations", "locals_dropped_by_setthis", "untouched_entries_compared", "storm_comparisons", "stability_cases"} {
 			if c[k] == 0 {
 				out = append(out, "coverage floor: no "+k)
 			}
@@ -118,8 +119,21 @@ var c20Hist = core.Mon(c20, "history-replay", func(w *core.W, h *HistCase) {
 		}
 		return nil
 	}
+	// exact rendering (decimals in their internal representation) of every entry of every caller-held map after the
+	// previous operation: an entry that the current operation neither sets nor assigns is still exactly what it was
+	prints := make([]map[string]string, len(goMaps))
+	takePrints := func() {
+		for mi, g := range goMaps {
+			prints[mi] = map[string]string{}
+			for k, v := range g {
+				prints[mi][k] = obs.SnapshotValues(v)
+			}
+		}
+	}
+	takePrints()
 	for i, o := range h.Ops {
 		w.Eval(1)
+		touched := map[string]bool{}
 		// the host-facing operations must not panic either
 		if o.Op != "resolve" {
 			var opPanic interface{}
@@ -171,6 +185,7 @@ var c20Hist = core.Mon(c20, "history-replay", func(w *core.W, h *HistCase) {
 				cur = -1
 			}
 			curStore()[o.Key] = *o.Val
+			touched[o.Key] = true
 		case "set":
 			w.Count("op:set")
 			aux[o.Key] = *o.Val
@@ -210,7 +225,7 @@ var c20Hist = core.Mon(c20, "history-replay", func(w *core.W, h *HistCase) {
 					hadLocal = true
 				}
 			}
-			ev := &refEval{Store: st}
+			ev := &refEval{Store: st, Assigned: touched}
 			mv, merr := ev.eval(pr.Tree)
 			if merr == errUnspec {
 				w.Skip("outside-sub-language")
@@ -254,6 +269,22 @@ var c20Hist = core.Mon(c20, "history-replay", func(w *core.W, h *HistCase) {
 				return
 			}
 		}
+		// entries not written by this operation are bit for bit what they were (a number held in the map is a value:
+		// nobody reduces, rescales or truncates it in place)
+		for mi, g := range goMaps {
+			for k, v := range g {
+				old, had := prints[mi][k]
+				if !had || touched[k] {
+					continue
+				}
+				w.Count("untouched_entries_compared")
+				if now := obs.SnapshotValues(v); now != old {
+					bad(i, "stored-value-changed-in-place", clipS(old, 200), clipS(now, 200), fmt.Sprintf("entry %q of caller-held map M%d was neither set nor assigned by this operation, yet its exact representation changed", k, mi))
+					return
+				}
+			}
+		}
+		takePrints()
 		// the auxiliary store is unaffected by formulas
 		for k, mvv := range aux {
 			if !mvMatches(mvv, r.Get(k)) {
@@ -307,6 +338,8 @@ var c20Ops = []HOp{
 func init() { c20.Run = runC20 }
 
 func runC20(w *core.W) {
+	runStability(w, c20Stable)
+	runStorm(w)
 	nmax := w.Pick(4, 6)
 	idx := 0
 	for n := 1; n <= nmax; n++ {
